@@ -292,6 +292,7 @@ def run_copy(ctx, case):
                 parsed0 = reftdf.parse_container(src_bytes)
                 live0 = [e["type"] for _, e in reftdf.live(parsed0)]
                 cands = [t_ for t_ in ("events", "emg", "optical", "data3D") if reftdf.TYPE_CODE[t_] not in live0]
+                wrong_reader, src_at_copy = None, None
                 try:
                     with src.allow_write() as w:
                         if cands and len(live0) < parsed0["nEntries"]:
@@ -299,11 +300,38 @@ def run_copy(ctx, case):
 
                             w.add_block(specs.build(labelled_spec(cands[0], 2)), "added just before the copy")
                         cp = call_copy(w, as_path(p, case["path"]), case.get("call", "positional"))
+                        # ... the original is edited further in the same context; the object copy() returned keeps describing the COPY
+                        copy_now = open(p, "rb").read() if os.path.isfile(p) else None
+                        src_at_copy = open(src_path, "rb").read()
+                        live1 = [e["type"] for _, e in reftdf.live(reftdf.parse_container(open(src_path, "rb").read()))]
+                        if live1:
+                            from basictdf.tdfBlock import BlockType as _BT
+
+                            w.remove_block(_BT(live1[-1]))
+                        if copy_now is not None:
+                            want_live = [e["type"] for e in reftdf.parse_container(copy_now)["entries"]]
+                            try:
+                                got_live = [b_.type.value if hasattr(b_.type, "value") else int(b_.type) for b_ in cp.blocks] if not any(
+                                    e_ in container.OPAQUE_CODES for e_ in want_live) else [e_.type.value for e_ in (cp.__enter__().entries)]
+                            except Exception as e_:  # noqa
+                                got_live = f"{type(e_).__name__}: {e_}"
+                            finally:
+                                h_ = getattr(cp, "handler", None)
+                                if getattr(cp, "_inside_context", False) and cp is not w:
+                                    try:
+                                        cp.__exit__(None, None, None)
+                                    except Exception:  # noqa
+                                        pass
+                            if got_live != want_live:
+                                wrong_reader = (got_live, want_live)
                     exc = None
                 except Exception as e:  # noqa
                     cp, exc = None, e
-                src_bytes = open(src_path, "rb").read()
+                src_bytes = src_at_copy if src_at_copy is not None else open(src_path, "rb").read()
                 ctx.label("copy:inside-write-context")
+                if wrong_reader is not None:
+                    ctx.fail("copy/returned-object-reads-another-file", f"the object returned by copy() (taken inside an open context of the source, which was then edited "
+                                                                       f"further) lists block types {wrong_reader[0]}; its own file holds {wrong_reader[1]}")
             else:
                 try:
                     cp = call_copy(src, as_path(p, case["path"]), case.get("call", "positional"))
@@ -383,7 +411,7 @@ def invalid_strategy(tier):
     sig = reftdf.SIGNATURE
     return st.fixed_dictionaries({
         "kind": st.sampled_from(["missing", "empty", "short-random", "random", "partial-signature", "signature-flipped-bit", "text", "zeros",
-                                 "signature-at-offset", "signature-reversed"]),
+                                 "signature-at-offset", "signature-reversed", "signature-permuted", "signature-permuted"]),
         "seed": st.integers(0, 10 ** 6), "n": st.integers(1, 15), "path": st.sampled_from(PATH_KINDS),
         "preopen": st.sampled_from(["never", "never", "reader", "context", "write-context", "two-readers"])})
 
@@ -419,6 +447,16 @@ def run_invalid(ctx, case):
                 data = b"\x00" + data
         elif kind == "signature-reversed":
             data = reftdf.SIGNATURE[::-1] + valid[16:]
+        elif kind == "signature-permuted":
+            # the same 16 bytes in another order (what a GUID looks like in the other byte order; words or halves exchanged): the rest valid
+            import uuid
+
+            sg = reftdf.SIGNATURE
+            variants = [uuid.UUID(bytes_le=sg).bytes, uuid.UUID(bytes=sg).bytes_le, sg[8:] + sg[:8], sg[4:8] + sg[:4] + sg[8:], b"".join(sg[i:i + 2][::-1] for i in range(0, 16, 2)),
+                        b"".join(sg[i:i + 4][::-1] for i in range(0, 16, 4)), sg[:8] + sg[8:][::-1], sg[1:] + sg[:1]]
+            data = variants[seed % len(variants)] + valid[16:]
+            if data[:16] == sg:
+                data = sg[::-1] + valid[16:]
         elif kind == "text":
             data = b"This is not a TDF file\n" * 200
         else:
